@@ -551,9 +551,9 @@ def gen_run(r, cfg):
         if not custom:
             pool = [t for t in pool if "code_" not in t] or [unit]
         extra.append({"k": "pre_follow", "f": "to", "u": r.choice(pool + [unit])})
-    # (not for the shallow-copy routes: there the two lineages share one table by construction, and what an edit
-    # through one handle does to the other handle is C12's subject - see its known finding on the id memo)
-    if custom and route not in ("str", "repr", "savetxt", "copy", "method_copy", "unitcopy") \
+    # (shallow-copy routes included: the two lineages then share one table by construction and the edit is made
+    # once; both handles must see it - this exposed the per-handle id memo repaired in a529d71)
+    if custom and route not in ("str", "repr", "savetxt") \
             and rt["chaos"] not in ("fresh_process", "new_interpreter") and r.random() < cfg.get("p_post", 0.0):
         toks = [t for t in rw_tokens(unit) if t != "sqrt"]
         if toks:
